@@ -42,6 +42,11 @@ SCHED_CHOICES = [
     {"policy": "demote", "sticky": 0.0, "preempt": "line", "p": 0.01},
     {"policy": "demote", "sticky": 0.0, "preempt": "line", "p": 0.05},
     {"policy": "demote", "sticky": 0.0, "preempt": "call", "p": 0.1},
+    # computing costs virtual time: sleeping tasks (application, keep-alive, timers) wake while another task is busy
+    {"policy": "random", "sticky": 0.8, "preempt": "none", "p": 0.0, "step_us": 20},
+    {"policy": "random", "sticky": 0.0, "preempt": "none", "p": 0.0, "step_us": 100},
+    {"policy": "random", "sticky": 0.7, "preempt": "call", "p": 0.05, "step_us": 5},
+    {"policy": "demote", "sticky": 0.0, "preempt": "line", "p": 0.01, "step_us": 10},
 ]
 
 
@@ -69,7 +74,7 @@ class World(object):
         self.cfg_home = env.fresh_config_home("w1")
         K_.set_preempt_mode(sched.get("preempt", "none"))
         self.k = K_.install(K_.Kernel(seed, policy=sched.get("policy", "random"), sticky=sched.get("sticky", 0.0),
-                                      preempt_p=sched.get("p", 0.0), max_steps=max_steps,
+                                      preempt_p=sched.get("p", 0.0), max_steps=max_steps, step_us=sched.get("step_us", 0),
                                       max_time=int(max_time_s * 1e6), decisions=decisions))
         nr = stream(seed, "net")
         self.net = N_.SimNet(self.k, N_.NetConfig(nr, lat=tuple(netcfg.get("lat", (0.0005, 0.02))),
